@@ -2,10 +2,10 @@
    Model: theories/Tags.v; proofs: theories/TagsC09.v (pending work is covered by a job) and
    theories/TagsC09T.v (termination).  Proved for the repaired instance (= the Go code after 56f3838, d1a158c,
    94a00a7): from every state that satisfies the invariant Tinv, every schedule of job bodies and completions
-   is finite and ends in a quiescent state.  What remains: Tinv is shown for the initial state and preserved by
-   every job step, but its preservation by the API calls themselves is not proved (see notes/C09.md). *)
+   is finite and ends in a quiescent state; Tinv holds initially and is preserved by every job step AND by every
+   API action (theories/TagsC09A.v), hence in every state reachable by an arbitrary history. *)
 From Coq Require Import List NArith Bool.
-From Pk Require Import Tags TagsC16 TagsC06 TagsC09 TagsC09T.
+From Pk Require Import Tags TagsC16 TagsC06 TagsC09 TagsC09T TagsC09A.
 Import ListNotations.
 Open Scope N_scope.
 
@@ -67,6 +67,31 @@ Proof. exact schedules_end_quiescent. Qed.
 
 Theorem C09_initial_state_invariant : forall cs, NoDup cs -> Tinv (init cs).
 Proof. exact Tinv_init. Qed.
+
+(* ---- every reachable state (theories/TagsC09A.v).  A history is any list of actions (API calls with any
+   arguments the API layer lets through -- api_ok: parsed definitions are well formed, mark definitions have no
+   references and name existing streams -- job bodies with any well-formed importer response, completions, in
+   any order, enabled or not). *)
+Theorem C09_invariant_preserved_by_every_action :
+  forall p a st, Tinv st -> valid st a -> Tinv (step repaired p a st).
+Proof. exact Tinv_step. Qed.
+
+Theorem C09_invariant_in_every_reachable_state :
+  forall cs l, NoDup cs -> valid_history (init cs) l -> Tinv (run repaired l (init cs)).
+Proof. exact Tinv_reachable. Qed.
+
+(* the property: for every finite history of API calls (interleaved with any job steps) and every order of the
+   remaining completions, the schedule is finite ... *)
+Theorem C09_every_schedule_from_every_reachable_state_terminates :
+  forall cs l, NoDup cs -> valid_history (init cs) l -> Acc (fun b a => jstep a b) (run repaired l (init cs)).
+Proof. exact reachable_schedules_terminate. Qed.
+
+(* ... and ends quiescent *)
+Theorem C09_every_schedule_from_every_reachable_state_ends_quiescent :
+  forall cs l st', NoDup cs -> valid_history (init cs) l ->
+  jsteps (run repaired l (init cs)) st' -> (forall st'', ~ jstep st' st'') ->
+  quiescent st' /\ all_certain (tags st') = true.
+Proof. exact reachable_schedules_end_quiescent. Qed.
 
 (* The unrepaired code (56f3838; corpus/C09/merge-not-restarted-after-convert.json): at rest with an eligible
    merge that nothing will start *)
